@@ -229,6 +229,14 @@ class TMap(Ty):
     def dom(self, t):       return self.sort().accessor(0, 1)(t)
 
 
+class TDefMap(TMap):
+    """collections.defaultdict(list | dict): same representation as a Map; a
+    missing key reads as the empty list / dict and is inserted by the access (the
+    value array holds the empty value outside the domain: a well-formedness
+    fact)"""
+    default = 'list'
+
+
 class TSet(Ty):
     def __init__(self, key):
         self.k = key
@@ -463,6 +471,9 @@ def coerce(v, ty):
             return Val(ty, ty.mk(*terms))
         if isinstance(ty, TMap):
             val = z3.K(ty.k.sort(), _default(ty.v))
+            if isinstance(ty, TDefMap):
+                val = z3.K(ty.k.sort(), coerce(PyTuple([]) if isinstance(ty.v, TList)
+                                               else PyDict({}), ty.v).term)
             dom = z3.K(ty.k.sort(), z3.BoolVal(False))
             for k, it in v.items.items():
                 kt = coerce(lift(k), ty.k).term
